@@ -18,13 +18,23 @@ def main():
                 print(out[-4000:])
                 print("setup: lake build failed for " + pid)
                 return 1
-            C.cache_ref_driver(P.COMPONENT)
             if hasattr(P, "prepare"):
                 P.prepare(C, "quick")
             C.build_harness(P.HARNESS, getattr(P, "VARIANT", "asan"), getattr(P, "EXTRA_FLAGS", ()), getattr(P, "WRAPS", ()))
         except Exception as e:
             print("setup: harness for %s: %r" % (pid, e))
             return 1
+    # the reference workspace (theorems and drivers for the reference facts) used when /repo's regenerated facts are
+    # not covered by the theorems: on this tree it is a copy of the build just made
+    try:
+        C.ensure_reflake()
+        if not C.facts_changed():
+            pass
+        else:
+            ok, out = C.lake_ref(["JsonC"] )
+    except Exception as e:
+        print("setup: reference workspace: %r" % e)
+        return 1
     print("setup ok")
     return 0
 
